@@ -208,7 +208,9 @@ def handleSets : Option Nat → List (List Matcher)
 mutual
 /-- one directive: its route (group still unset) and the counter afterwards -/
 def adaptNode : Node → Nat → Route × Nat
-  | .respond st, c => (.mk 0 [] [.answer (.lit st)] false, c)
+  | .respond st, c =>
+    -- statuses from 1000 on stand for the `error <st - 1000>` directive (the real `error` handler)
+    (.mk 0 [] [if st ≥ 1000 then .raise (.lit (st - 1000)) else .answer (.lit st)] false, c)
   | .handle p body, c =>
     match adaptNodes body c with
     | (rs, c1) =>
@@ -228,5 +230,47 @@ end
 def adaptSite (nodes : List Node) : List Route :=
   match adaptNodes nodes 0 with
   | (rs, c1) => consolidate (setGroups (drawGroups (nodes.filter Node.isHandle).length c1).1 nodes rs)
+
+/-! ### a whole site: `handle` blocks, `error`, and `handle_errors` blocks with `handle` blocks inside
+
+The directives of a site are parsed in source order with ONE group counter: first the bodies of the
+primary `handle` blocks (inside out), then the bodies of the `handle_errors` blocks (each body is a
+`buildSubroute` of its own, drawing its groups), and only then the site's own `buildSubroute`. -/
+
+structure EBlock where
+  args : List Bytes
+  body : List Node
+
+/-- the status test put on the routes of one `handle_errors` body -/
+def statusWrap (a : StatusArgs) (rs : List Route) : List Route :=
+  if a.classes.isEmpty && a.codes.isEmpty then rs
+  else rs.map fun rt =>
+    match rt with
+    | .mk g [] hs term => .mk g [[selMatcher a]] hs term
+    | rt => .mk 0 [[selMatcher a]] [.sub [rt] false []] false
+
+/-- the error-route bodies, in source order, threading the counter -/
+def adaptEBlocks : List EBlock → Nat → Option (List (List Route) × Nat)
+  | [], c => some ([], c)
+  | b :: bs, c =>
+    match parseArgs b.args ⟨[], []⟩ with
+    | none => none
+    | some a =>
+      match adaptNodes b.body c with
+      | (rs, c1) =>
+        match adaptEBlocks bs (drawGroups (b.body.filter Node.isHandle).length c1).2 with
+        | none => none
+        | some (rest, c2) =>
+          some (statusWrap a (consolidate (setGroups (drawGroups (b.body.filter Node.isHandle).length c1).1 b.body rs)) :: rest, c2)
+
+/-- primary routes and error routes of the site; `none` = the adapter refuses it -/
+def adaptFull (nodes : List Node) (ebs : List EBlock) : Option (List Route × List Route) :=
+  match adaptNodes nodes 0 with
+  | (rs, c1) =>
+    match adaptEBlocks ebs c1 with
+    | none => none
+    | some (blocks, c2) =>
+      some (consolidate (setGroups (drawGroups (nodes.filter Node.isHandle).length c2).1 nodes rs),
+            (C16.insertionSort blockLess blocks).flatten)
 
 end CaddyModel.C05
